@@ -11,6 +11,8 @@ def run():
     chk.add_model("IndexQueueImpl/deviation PopRightReturnsOldLast (must violate)", r, note="violated: %s" % r["violated"])
     r2 = vlib.model_check("IndexQueueImpl", "IndexQueueImpl_dev2.cfg", expect_ok=False, timeout=600)
     chk.add_model("IndexQueueImpl/deviation PopLeftChecksEmptyOnce (must violate)", r2, note="violated: %s" % r2["violated"])
+    r3 = vlib.model_check("IndexQueueImpl", "IndexQueueImpl_dev3.cfg", expect_ok=False, timeout=600)
+    chk.add_model("IndexQueueImpl/deviation PopRightIndexBeforeLoop (must violate)", r3, note="violated: %s" % r3["violated"])
     # fine-grained model of the Michael deque (anchor CAS, push/pop/stabilize on both ends)
     for cfg in ("DequeImpl.cfg", "DequeImpl_b.cfg", "DequeImpl_abp.cfg", "DequeImpl_both.cfg"):
         chk.add_model("DequeImpl/%s" % cfg[:-4], vlib.model_check("DequeImplMC", cfg, timeout=900))
